@@ -1,6 +1,8 @@
 import PetgraphModel.Common
 import PetgraphModel.Model.Serde
 import PetgraphModel.Spec.Serde
+import PetgraphModel.Spec.SerdeCheck
+import PetgraphModel.Spec.SerdeText
 /-
 C17 driver.  A case works on numbered *slots*, each holding one graph value (`Graph`, `StableGraph` or `GraphMap`).
 For every slot the driver keeps the mirror-model state (exact) and the abstract graph (specification) side by side.
@@ -8,8 +10,11 @@ For every slot the driver keeps the mirror-model state (exact) and the abstract 
   new  <slot> <G|S|M> <d|u> <w>                                  => ok
   op   <slot> <add_node|add_edge|remove_node|remove_edge|check> … => answer
   dump <slot>                                                     => observation
-  ser  <slot> <fmt>                                               => ok <wire> | panic
-  de   <slot> <G|S|M> <d|u> <w> <fmt> ord=<fields> rt=<slot|-> n=… h=… p=… e=…   => ok <observation> | err … | panic
+  ser  <slot> jv                                                  => ok <wire> | panic
+  ser  <slot> js                                                  => ok <the JSON text itself> | panic
+  ser  <slot> bin                                                 => ok <the bincode bytes in hex> | panic
+  de   <slot> <G|S|M> <d|u> <w> <fmt> ord=<fields> rt=<slot|-> n=… h=… p=… e=… [txt=<json>|hex=<bytes>]
+                                                                  => ok <observation> | err … | panic
   blind <G|S|M> <d|u> <w> <fmt>                                   => err … | ok <observation> | panic
 
 Spec-level rules are the clauses of the property: serialization shows exactly the abstract graph (vacancies up to the
@@ -18,7 +23,7 @@ is observably the stream's graph, anything else gives an error or a consistent g
 graph stays consistent under further operations.
 -/
 namespace PetgraphModel.C17
-open PetgraphModel PetgraphModel.Serde PetgraphModel.SerdeSpec
+open PetgraphModel PetgraphModel.Serde PetgraphModel.SerdeSpec PetgraphModel.SerdeCheck PetgraphModel.SerdeText
 
 inductive MState where
   | g (r : Raw)
@@ -170,6 +175,9 @@ def endOf (w : String) : Nat :=
   match w with
   | "8" => 255 | "16" => 65535 | "32" => 4294967295 | _ => 0
 
+/-- bytes of an index of the type whose maximum is `END` -/
+def indexBytes (END : Nat) : Nat := if END == 255 then 1 else if END == 65535 then 2 else 4
+
 def kindOf (t : String) : Kind := if t == "G" then .graph else if t == "S" then .stable else .map
 
 def parseAns (impl : String) : Ans :=
@@ -198,21 +206,11 @@ def judgeDump (a : AGraph) (ws : List String) : Except String AGraph :=
   | .map =>
     match parseMapObs ws with
     | none => .error "unreadable GraphMap observation"
-    | some o =>
-      match mapObsConsistent a.directed o with
-      | some why => .error why
-      | none => match mapObsMatches a o with
-        | some why => .error why
-        | none => .ok a
-  | k =>
+    | some o => judgeMapObs a o
+  | _ =>
     match parseObs ws with
     | none => .error "unreadable observation"
-    | some o =>
-      match obsConsistent k a.END a.directed o with
-      | some why => .error why
-      | none => match obsMatches a o with
-        | some why => .error why
-        | none => .ok { a with edges := o.edges, looseEdgeIds := false }
+    | some o => judgeObs a o
 
 /-- abstract state read off a consistent observation (used when the stream was not a valid serialization and the
     property only demands *some* consistent graph) -/
@@ -356,38 +354,81 @@ def step (d : DState) (req : List String) (impl : String) : DState × String :=
       else match judgeDump sl.spec (splitWords impl) with
         | .error why => (d, s!"SPECFAIL {why}")
         | .ok a => (d.put k { sl with spec := a }, cmpExact (showModelDump sl.model) impl))
-  | ["ser", k, _fmt] =>
+  | ["ser", k, fmt] =>
     let k := k.toNat?.getD 0
     (match d.get k with
     | none => (d, s!"SPECFAIL ser of unknown slot {k}")
     | some sl =>
-      let ms := match sl.model with
-        | .g r => "ok " ++ showWire (serGraph r)
-        | .s s => (match serStable s with | some w => "ok " ++ showWire w | none => "panic")
-        | .m m => (match serMap m with | some w => "ok " ++ showWire w | none => "panic")
-        | .lost => "(no model state)"
-      let spec : Option String :=
-        match splitWords impl with
-        | "ok" :: ws =>
+      -- the mirror model's wire value (`some none` = the serializer would panic)
+      let mw : Option (Option Wire) := match sl.model with
+        | .g r => some (some (serGraph r))
+        | .s s => some (serStable s)
+        | .m m => some (serMap m)
+        | .lost => none
+      -- run-time check of the hypothesis of the round-trip theorems: the state being serialized satisfies the
+      -- structural invariant (`C17_stableInv_check`, `C17_graphInv_check`, `C17_mapWf_check`)
+      let side : Option String := match sl.model with
+        | .g r => if graphInvB r then none else some "GraphInv (the Graph being serialized)"
+        | .s s => if stableInvB s then none else some "StableInv (the StableGraph being serialized)"
+        | .m m => if mapWfB m then none else some "GraphMap well-formedness (the map being serialized)"
+        | .lost => none
+      let iw := if sl.spec.kind == .map then 4 else indexBytes sl.spec.END
+      -- the implementation's stream, read by the modelled reader of its transport; and the model's stream, printed
+      let readImpl : Except String Wire :=
+        match fmt, splitWords impl with
+        | "js", "ok" :: text :: hw =>
+          -- the modelled reader; a text outside the canonical grammar (a JSON object is unordered: a changed field
+          -- order is harmless) is judged through the harness's reading of it and reported by the exact comparison
+          (match parseWireS text with
+          | some w => .ok w
+          | none =>
+            match parseWire hw with
+            | some w => .ok w
+            | none => .error "the serializer's JSON text is unreadable")
+        | "bin", ["ok", hex] =>
+          (match parseHex hex.toList with
+          | none => .error "unreadable hex"
+          | some bytes =>
+            match parseBin iw bytes with
+            | some (w, []) => .ok w
+            | some (_, _ :: _) => .error "the serializer's bincode stream has trailing bytes"
+            | none => .error "the serializer's bincode stream is outside the modelled layout")
+        | _, "ok" :: ws =>
           (match parseWire ws with
-          | none => some "unreadable wire value"
-          | some w =>
-            let full := [Field.n, .h, .p, .e]
-            -- the wire must denote exactly the abstract graph, with vacancies only below the bounds
-            let kind := if sl.spec.kind == .map then Kind.graph else sl.spec.kind
-            -- (vacancies beyond the bounds are not observable: whether the stream carries them is left to the exact
-            -- comparison with the mirror model)
-            if !wireValid kind sl.spec.END sl.spec.directed full w then some "serialization is not a well-formed stream of its own type"
-            else
-              let a := absWire sl.spec.kind sl.spec.END sl.spec.directed full w
-              match sl.spec.kind with
-              | .map => if sameMultiset a.mnodes sl.spec.mnodes && sameMultiset a.medges sl.spec.medges then none
-                        else some "serialized GraphMap denotes a different graph"
-              | _ => if sameMultiset a.nodes sl.spec.nodes && sameMultiset a.edges sl.spec.edges then none
-                     else some "serialized stream denotes a different graph (indices, weights or endpoints)")
-        | _ => some s!"serialization failed: {impl}"
-      (d, verdict spec ms impl))
-  | ["de", k, t, dir, w, _fmt, ord, rt, wn, wh, wp, we] =>
+          | some w => .ok w
+          | none => .error "unreadable wire value")
+        | _, _ => .error s!"serialization failed: {impl}"
+      let ms := match mw with
+        | none => "(no model state)"
+        | some none => "panic"
+        | some (some w) =>
+          if fmt == "js" then "ok " ++ printWireS w
+          else if fmt == "bin" then "ok " ++ showHex (binWire iw w)
+          else "ok " ++ showWire w
+      -- the byte model is proved for numbers that fit their fields (`C17_bincode_roundtrip`): weights are the
+      -- generator's business, indices the index type's
+      let fits : Option String := match fmt, mw with
+        | "bin", some (some w) =>
+          if binFits iw w then none
+          else if w.nodes.all (fun x => decide (-2147483648 ≤ x) && decide (x < 2147483648)) &&
+                  w.edges.all (fun e => match e with
+                    | some (_, _, x) => decide (-2147483648 ≤ x) && decide (x < 2147483648) | none => true)
+          then some "SPECFAIL side condition binFits does not hold: an index or a length does not fit its bincode field"
+          else some "SPECFAIL generator left the proved range: a weight outside i32"
+        | _, _ => none
+      match side, fits with
+      | some what, _ => (d, s!"SPECFAIL side condition {what} does not hold on the mirror state")
+      | none, some why => (d, why)
+      | none, none =>
+        let spec : Option String := match readImpl with
+          | .error why => some why
+          | .ok w => judgeSer sl.spec w
+        -- exact part: the text / bytes themselves (for `js` without the harness's own reading that follows the text)
+        let implExact := match fmt, splitWords impl with
+          | "js", "ok" :: text :: _ => "ok " ++ text
+          | _, _ => impl
+        (d, verdict spec ms implExact))
+  | "de" :: k :: t :: dir :: w :: fmt :: ord :: rt :: wn :: wh :: wp :: we :: src =>
     let k := k.toNat?.getD 0
     let kind := kindOf t
     let END := if t == "M" then 4294967295 else endOf w
@@ -396,22 +437,70 @@ def step (d : DState) (req : List String) (impl : String) : DState × String :=
     (match parseWire [wn, wh, wp, we] with
     | none => (d, "SPECFAIL bad request: unreadable wire")
     | some wire =>
+      -- the bytes / text that were fed, when the harness shows them: they must denote the stated wire value under the
+      -- modelled reader of the transport (a disagreement is an inconsistency of the harness, reported loudly)
+      let iw := if kind == .map then 4 else indexBytes END
+      let transport : Option String := match fmt, src with
+        | "js", [tok] =>
+          (match afterEq tok "txt" with
+          | some text =>
+            (match parseWireS text with
+            | some w' => if w' == wire then none else some "the JSON text fed does not denote the stated wire value"
+            | none => none)   -- serde_json reads more than the canonical grammar modelled here: nothing to compare
+          | none => some "bad request: unknown source token")
+        | "bin", [tok] =>
+          (match (afterEq tok "hex").bind (fun h => parseHex h.toList) with
+          | some bytes =>
+            (match parseBin iw bytes with
+            | some (w', _) => if w' == wire then none else some "the bincode bytes fed do not denote the stated wire value"
+            | none => some "the bincode bytes fed are outside the modelled layout")
+          | none => some "bad request: unreadable hex")
+        | _, [] => none
+        | _, _ => some "bad request: unexpected source token"
+      match transport with
+      | some why => (d.drop k, s!"SPECFAIL transport check: {why}")
+      | none =>
       let (m', ms) := modelDe kind END directed order wire
       let valid := wireValid kind END directed order wire
       -- the property's round-trip clause speaks about streams that ARE serializations: all four fields (a JSON object
       -- is unordered), nothing else, no vacancy beyond the bounds.  Only those must load, and load as their graph;
       -- any other input may be refused, and if accepted need only be a consistent graph.
       let ordS := (afterEq ord "ord").getD ""
-      let canonical := ordS.length == 4 && order.length == 4 && order.contains .n && order.contains .h && order.contains .p && order.contains .e
-      let noTrailing := wire.edges.getLast? != some none &&
-        (wire.holes.isEmpty || wire.holes.getLast? != some (wire.nodes.length + wire.holes.length - 1))
-      let valid := valid && canonical && noTrailing
-      let iw := splitWords impl
-      match iw with
+      let valid := valid && canonicalStream ordS order wire
+      let srcSlot : Option Slot := ((afterEq rt "rt").bind (·.toNat?)).bind d.get
+      -- run-time check of the remaining hypotheses of the round-trip theorems (`C17_fullOrder_check`): a round trip is
+      -- fed with all four fields.  (Capacity `bound < END` is the recorded exception D20, see `isD20`.)
+      let rtOrderBad := srcSlot.isSome && !(fullOrderB order)
+      -- `C17_wireValid_loads_*`: a valid stream with `wireCapB` IS loaded by the mirror model; only without it can
+      -- the recorded finding D20 apply (`C17_wireCap_check`)
+      let capOk := wireCapB END order wire
+      -- hypotheses of the round-trip / cross-loading theorems on the state that was serialized (same index type):
+      -- capacity (`C17_stableCap_check`, `C17_graphCap_check`, `C17_mapCap_check`) and, for StableGraph -> Graph,
+      -- no vacancy below the bounds (`C17_noVacancy_check`)
+      let srcCap : Option Bool := match srcSlot with
+        | some ssl =>
+          if ssl.spec.END == END then
+            (match ssl.model with
+            | .s s => some (stableCapB s) | .g r => some (graphCapB r) | .m m => some (mapCapB m) | .lost => none)
+          else none
+        | none => none
+      let crossBad : Bool := match srcSlot with
+        | some ssl =>
+          (match ssl.model with
+          | .s s => kind == .graph && ssl.spec.END == END && s.g.directed == directed && stableCapB s && noVacancyB s &&
+                    graphOrderB order && !(wireValid kind END directed order wire)
+          | _ => false)
+        | none => false
+      let iwords := splitWords impl
+      if rtOrderBad then (d.drop k, "SPECFAIL generator left the proved range: a round trip was fed with an incomplete field order")
+      else if crossBad then
+        (d.drop k, "SPECFAIL cross-loading: a StableGraph without a vacancy below its bounds wrote a stream that is not a Graph stream")
+      else
+      match iwords with
       | ["panic"] => (d.drop k, "SPECFAIL deserialization panicked")
       | "err" :: _ =>
         if valid then
-          if isD20 wire order END iw then (d.drop k, "KNOWN D20 valid stream refused at count == index type maximum: " ++ impl)
+          if !capOk && srcCap != some true && isD20 wire order END iwords then (d.drop k, "KNOWN D20 valid stream refused at count == index type maximum: " ++ impl)
           else (d.drop k, s!"SPECFAIL a valid stream was refused: {impl}")
         else (d.drop k, cmpExact ms impl)
       | "ok" :: ws =>
@@ -422,16 +511,7 @@ def step (d : DState) (req : List String) (impl : String) : DState × String :=
             | .error why => .error ("loaded graph is not the stream's graph: " ++ why)
             | .ok a' =>
               -- round trip: identical to the graph that was serialized (same indices, weights, endpoints)
-              match (afterEq rt "rt").bind (·.toNat?) with
-              | some src =>
-                (match d.get src with
-                | some ssl =>
-                  if ssl.spec.kind != .map && kind != .map then
-                    if sameMultiset ssl.spec.nodes a'.nodes && sameMultiset ssl.spec.edges a'.edges && ssl.spec.directed == directed then .ok a'
-                    else .error "round trip changed the graph (indices, weights, endpoints or direction)"
-                  else .ok a'
-                | none => .ok a')
-              | none => .ok a'
+              judgeRT (srcSlot.map (·.spec)) kind directed a'
           else
             match adoptDump kind END directed ws with
             | .error why => .error ("an invalid stream was accepted and the result is not a consistent graph: " ++ why)
